@@ -71,15 +71,25 @@ econf_err key_file_append(econf_file *kf) {
 
 /* --- GETTERS --- */
 
+/* strtoul() and strtoull() accept a minus sign and silently return the
+   negated value as unsigned number ("-1" -> ULONG_MAX). A negative number
+   cannot be represented by an unsigned type. "-0" is fine. */
+static bool is_negative_number(const char *text, unsigned long long converted) {
+  return converted != 0 && strtoll(text, NULL, 0) < 0;
+}
+
 econf_err getIntValueNum(econf_file key_file, size_t num, int32_t *result) {
   char *endptr;
 
   if (key_file.file_entry[num].value == NULL)
     return ECONF_KEY_HAS_NULL_VALUE;
   errno = 0;
-  *result = strtol(key_file.file_entry[num].value, &endptr, 0);
-  if (endptr == key_file.file_entry[num].value || errno == ERANGE || (errno != 0 && *result == 0))
+  long value = strtol(key_file.file_entry[num].value, &endptr, 0);
+  if (endptr == key_file.file_entry[num].value || errno == ERANGE || (errno != 0 && value == 0))
     return ECONF_VALUE_CONVERSION_ERROR;
+  if (value < INT32_MIN || value > INT32_MAX)
+    return ECONF_VALUE_CONVERSION_ERROR;
+  *result = (int32_t) value;
   return ECONF_SUCCESS;
 }
 
@@ -101,9 +111,12 @@ econf_err getUIntValueNum(econf_file key_file, size_t num, uint32_t *result) {
   if (key_file.file_entry[num].value == NULL)
     return ECONF_KEY_HAS_NULL_VALUE;
   errno = 0;
-  *result = strtoul(key_file.file_entry[num].value, &endptr, 0);
-  if (endptr == key_file.file_entry[num].value || errno == ERANGE || (errno != 0 && *result == 0))
+  unsigned long value = strtoul(key_file.file_entry[num].value, &endptr, 0);
+  if (endptr == key_file.file_entry[num].value || errno == ERANGE || (errno != 0 && value == 0))
     return ECONF_VALUE_CONVERSION_ERROR;
+  if (value > UINT32_MAX || is_negative_number(key_file.file_entry[num].value, value))
+    return ECONF_VALUE_CONVERSION_ERROR;
+  *result = (uint32_t) value;
   return ECONF_SUCCESS;
 }
 
@@ -113,9 +126,12 @@ econf_err getUInt64ValueNum(econf_file key_file, size_t num, uint64_t *result) {
   if (key_file.file_entry[num].value == NULL)
     return ECONF_KEY_HAS_NULL_VALUE;
   errno = 0;
-  *result = strtoull(key_file.file_entry[num].value, &endptr, 0);
-  if (endptr == key_file.file_entry[num].value || errno == ERANGE || (errno != 0 && *result == 0))
+  unsigned long long value = strtoull(key_file.file_entry[num].value, &endptr, 0);
+  if (endptr == key_file.file_entry[num].value || errno == ERANGE || (errno != 0 && value == 0))
     return ECONF_VALUE_CONVERSION_ERROR;
+  if (is_negative_number(key_file.file_entry[num].value, value))
+    return ECONF_VALUE_CONVERSION_ERROR;
+  *result = value;
   return ECONF_SUCCESS;
 }
 
